@@ -26,33 +26,53 @@ def replay(tid, hist):
     cms = []            # how each open frame was pushed: a context manager or None (method call)
     sentinel = ast.Constant(value=DEFAULT)
     recs = []
+    broken = ""
     for i, a in enumerate(hist):
         swallowed = False
-        # only what the simplifier itself uses: frames come and go through the stack_frame context manager
-        if a["act"] == "push":
-            cm = stack_frame(stk)
-            cm.__enter__()
-            cms.append(cm)
-        elif a["act"] in ("pop", "raise"):
-            cm = cms.pop() if cms else stack_frame(stk)
-            if a["act"] == "raise":
-                # the body of a with-block raises: __exit__ runs with the exception and must not swallow it
-                try:
-                    raise KeyError("body failed")
-                except KeyError as e:
-                    swallowed = bool(cm.__exit__(type(e), e, e.__traceback__))
-            else:
-                cm.__exit__(None, None, None)
-        elif a["act"] == "define":
-            stk.define_name(a["n"], ast.Constant(value=a["v"]))
-        vis = {}
-        for n in NAMES:
-            got = stk.lookup_name(n, sentinel)
-            vis[n] = got.value if isinstance(got, ast.Constant) else -1
-        depth = -1          # (not observable through the public interface)
-        recs.append({"tid": tid, "step": i + 1, "act": a["act"], "n": a["n"], "v": a["v"], "vis": vis, "depth": depth,
+        if broken:
+            # the stack raised at an earlier step: the rest of the history is reported as not matching (vis = -2)
+            recs.append({"tid": tid, "step": i + 1, "act": a["act"], "n": a["n"], "v": a["v"],
+                         "vis": {n: -2 for n in NAMES}, "depth": -1, "swallowed": False})
+            continue
+        try:
+            _step(stk, cms, a)
+            swallowed = cms_swallowed.pop() if cms_swallowed else False
+            vis = {}
+            for n in NAMES:
+                got = stk.lookup_name(n, sentinel)
+                vis[n] = got.value if isinstance(got, ast.Constant) else -1
+        except Exception as e:          # the implementation raised: judged by TLC as a wrong observation
+            broken = type(e).__name__
+            vis = {n: -2 for n in NAMES}
+        recs.append({"tid": tid, "step": i + 1, "act": a["act"], "n": a["n"], "v": a["v"], "vis": vis, "depth": -1,
                      "swallowed": swallowed})
     return recs
+
+
+cms_swallowed = []
+
+
+def _step(stk, cms, a):
+    from func_adl.ast.call_stack import stack_frame
+    swallowed = False
+    # only what the simplifier itself uses: frames come and go through the stack_frame context manager
+    if a["act"] == "push":
+        cm = stack_frame(stk)
+        cm.__enter__()
+        cms.append(cm)
+    elif a["act"] in ("pop", "raise"):
+        cm = cms.pop() if cms else stack_frame(stk)
+        if a["act"] == "raise":
+            # the body of a with-block raises: __exit__ runs with the exception and must not swallow it
+            try:
+                raise KeyError("body failed")
+            except KeyError as e:
+                swallowed = bool(cm.__exit__(type(e), e, e.__traceback__))
+        else:
+            cm.__exit__(None, None, None)
+    elif a["act"] == "define":
+        stk.define_name(a["n"], ast.Constant(value=a["v"]))
+    cms_swallowed.append(swallowed)
 
 
 def component(prop, tier, rep):
